@@ -53,6 +53,13 @@ MANIFEST = dict(
          "move MovePreallocated accepts, and a call not reported as cancelled reports one; the window hypothesis is derived (every "
          "search value lies in [MinEval, MaxEval], from C18 and C04_live_has_legal_move), the table seed is covered by an explicit "
          "NoCollision hypothesis on the root entry; every board size and every game of at most 64 pieces (the standard sets of 3x3..6x6) without any side condition (_64, _game64). "
+         "On the same executed model (third wave): C04_analyze_all_heads_legal_executed - every line of AnalyzeAll is non-empty and starts with an accepted move, "
+         "every configuration, any table, any cancellation point; C04_get_move_randomised_legal - the randomised choice of MinimaxAI.GetMove "
+         "(model coq/SearchRand.v on top of Search.v, random source = oracle stream of raw Int63 values, int64 arithmetic, Int63n transcribed): the "
+         "returned move is accepted by MovePreallocated for every configuration, 0 < RandomizeWindow <= 2^29 and any RandomizeScale, and with the "
+         "default scale it never panics; with RandomizeScale > RandomizeWindow it DOES panic (rand.Int63n(0); C04_get_move_scale_panics, reproduced "
+         "on the real engine; outside the option lattice of the property); C04_pv_replays_precise - for MakePrecise without a table the WHOLE "
+         "reported variation replays legally, for every value and every cancellation point. "
          "Monte-Carlo player: model coq/Mcts.v executed against ai/mcts pass by pass; every returned move legal for any random stream, "
          "score function and clock (C04_mcts_getmove_legal); no-panic partial. "
          "Opening book: model coq/Opening.v (BuildOpeningBook, OpeningBook.GetMove, OpeningPlayer.GetMove) executed against ai/opening.go "
@@ -66,7 +73,7 @@ MANIFEST = dict(
     ref='5.4', technique='independent Go oracle (rules + replay) over players x configurations + Coq invariant proofs + model/implementation differential on legality, MCTS passes and the opening book',
     note="Partial on the proof side: Analyze's first move is proved legal on the executed model (larger boards under the side condition withinP: "
          "C01's 64-stack limit along the searched tree; the model's loops take the node's own move count as fuel, so no bound on the number of generated moves is assumed); GetMove's randomised choice and "
-         "AnalyzeAll are proved on the abstract root-search model only; whole-PV replay is covered by the oracle only; MCTS no-panic assumes evaluator totality and <= 64 pieces; "
+         "AnalyzeAll are proved on the executed model Search.v + SearchRand.v (SearchRand.v itself is hand-transcribed and not yet executed against the code: the check exercises the real randomised GetMove through the oracle only); whole-PV replay is proved for precise configurations without a table and covered by the oracle only otherwise; MCTS no-panic assumes evaluator totality and <= 64 pieces; "
          "opening book: 'GetMove never panics' is proved for books below 2^28 words (C04_opening_book_get_move_no_panic; beyond it rand.Int31n's argument wraps, in the code as in the model); "
          "NoCollisionOn and reserves_match_board / opening_consistent of the queried position are explicit hypotheses (a position with "
          "non-default piece counts can share a book position's hash and squares without sharing its legal moves). Found and repaired through "
